@@ -57,7 +57,10 @@ def generate(args):
         obs = fx.run()
         for ob in obs:
             text, nparts = serialize(eng, ob)
-            res["obligations"].append({
+            rtext = None
+            if not ob.expect_sat and len(ob.pc) > 25:
+                rtext, _n = serialize(eng, ob, reduced=True)
+            res["obligations"].append({"rtext": rtext,
                 "name": ob.name, "kind": ob.kind, "label": ob.label, "lineno": ob.lineno,
                 "trace": ob.trace[-12:], "text": text, "nparts": nparts,
                 "parts": [l for l, _f in (ob.parts or [])], "expect_sat": ob.expect_sat})
@@ -71,9 +74,9 @@ def generate(args):
 
 
 def solve(args):
-    text, nparts, timeout, expect_sat, both = args
+    text, nparts, timeout, expect_sat, both, rtext = args
     try:
-        return solve_text(text, nparts, timeout, expect_sat=expect_sat, both=both)
+        return solve_text(text, nparts, timeout, expect_sat=expect_sat, both=both, reduced_text=rtext)
     except Exception:
         return {"status": "unknown", "backend": "z3", "reason": "solver error: " + traceback.format_exc()[-600:],
                 "model": {}, "model_text": "", "failed_parts": [], "unknown_parts": [], "seconds": 0.0}
@@ -91,7 +94,7 @@ def verify_many(quals, timeout=10, both=False, root=None, jobs=None):
     flat = []
     for ri, r in enumerate(results):
         for oi, o in enumerate(r["obligations"]):
-            flat.append((ri, oi, (o["text"], o["nparts"], timeout, o["expect_sat"], both)))
+            flat.append((ri, oi, (o["text"], o["nparts"], timeout, o["expect_sat"], both, o.pop("rtext", None))))
     # biggest first: better load balance
     order = sorted(range(len(flat)), key=lambda i: -len(flat[i][2][0]))
     if flat:
